@@ -1,9 +1,9 @@
 #!/bin/bash
-# usage: tools/sweep.sh <tier> <seed>...   (evidence is NOT rewritten)
+# usage: [CHECKS="C03 C05"] tools/sweep.sh <tier> <seed>...   (evidence is NOT rewritten)
 cd "$(dirname "$0")/.."
 tier=$1; shift
 for seed in "$@"; do
-  for p in C01 C02 C03 C04 C05 C06 C07 C08 C09 C10 C11 C12 C13 C14 C15 C16 C17 C18 C19 C20; do
+  for p in ${CHECKS:-C01 C02 C03 C04 C05 C06 C07 C08 C09 C10 C11 C12 C13 C14 C15 C16 C17 C18 C19 C20}; do
     s=$(date +%s)
     out=$(VERIF_SEED=$seed ./check $p --tier $tier --no-evidence 2>&1)
     rc=$?
